@@ -1,0 +1,82 @@
+//go:build verif
+
+package armor
+
+// Contracts for govc, the contract verifier under /verif (see /verif/DESIGN.md).
+// Compiled only with -tags verif; comment-only.
+
+//@ const HEADERLINE := "-----BEGIN AGE ENCRYPTED FILE-----\n"
+//@ const FOOTERLINE := "-----END AGE ENCRYPTED FILE-----\n"
+//@ const NLFOOTERLINE := "\n-----END AGE ENCRYPTED FILE-----\n"
+
+//@ pred awinv(a) := a.encoder != nil && a.encoder.enc != nil && a.dst != nil && a.encoder.dst == a.dst && a.encoder.written >= 0
+
+//@ func (*armoredWriter).Write(a, p) (n, err)
+//@   requires awinv(a)
+//@   call io.WriteString#1 requires arg0 == a.dst && arg1 == HEADERLINE && !old(a.started)                                         [C05 C08]
+//@   call WrappedBase64Encoder).Write#1 requires arg0 == a.encoder && same(arg1, p) && a.started                                    [C08 C12]
+//@   ensures#inv awinv(a)
+//@   ensures#full err == nil ==> n == len(p) && a.started                                                                           [C08 C12]
+//@   ensures#hdrerr (!old(a.started) && !a.started) ==> err != nil && n == 0 && a.encoder.$acc == old(a.encoder.$acc)                [C08 C13]
+//@   ensures#mono old(a.started) ==> a.started                                                                                      [C08]
+//@   ensures#hdronce old(a.started) ==> (err == nil ==> true)
+//@   modifies a.started, a.dst.$out, a.encoder.$acc, a.encoder.written, a.encoder.buf.$bbuf
+
+//@ func (*armoredWriter).Close(a) (err)
+//@   requires awinv(a)
+//@   call WrappedBase64Encoder).Close#1 requires arg0 == a.encoder                                                                  [C08 C13]
+//@   call io.WriteString#0 requires arg0 == a.dst && (arg1 == HEADERLINE || arg1 == FOOTERLINE || arg1 == NLFOOTERLINE)              [C05 C08]
+//@   ensures#twice old(a.closed) ==> err != nil && a.dst.$out == old(a.dst.$out)                                                     [C08 C13]
+//@   ensures#closed a.closed                                                                                                        [C08]
+//@   ensures#hdr (!old(a.closed) && err == nil) ==> a.started                                                                        [C08]
+//@   ensures#text (!old(a.closed) && err == nil && old(a.started)) ==> a.dst.$out == cat(a.encoder.$out0, wrapcols(0, encof(a.encoder.$enc, a.encoder.$acc)), (len(encof(a.encoder.$enc, a.encoder.$acc)) % 64 == 0 ? FOOTERLINE : NLFOOTERLINE))   [C05 C08 C13]
+//@   modifies a.closed, a.started, a.dst.$out, a.encoder.written, a.encoder.buf.$bbuf
+
+//@ func NewWriter(dst) (wc)
+//@   requires dst != nil
+//@   ensures#type typeis(wc, "*filippo.io/age/armor.armoredWriter")                                                                  [C08]
+//@   ensures#init cast(wc, "filippo.io/age/armor.armoredWriter").dst == dst && !cast(wc, "filippo.io/age/armor.armoredWriter").started && !cast(wc, "filippo.io/age/armor.armoredWriter").closed && awinv(cast(wc, "filippo.io/age/armor.armoredWriter"))   [C08]
+//@   call NewWrappedBase64Encoder#1 requires arg0 == base64.StdEncoding && arg1 == dst                                               [C05 C08]
+
+//@ pred arinv(r) := r.r != nil && len(r.unread) <= 48 && (len(r.unread) > 0 ==> rg(r.unread) == rg(r.buf)) && ((r.err != nil && r.err != io.EOF) ==> typeis(r.err, "*filippo.io/age/armor.Error"))
+
+//@ func (*armoredReader).setErr(r, err) (e)
+//@   requires err != nil
+//@   ensures#stored r.err == e && e != nil                                                                                          [C08 C13]
+//@   ensures#type e != io.EOF ==> typeis(e, "*filippo.io/age/armor.Error")                                                          [C08 C14]
+//@   ensures#eof err == io.EOF <==> e == io.EOF                                                                                     [C08 C13]
+//@   ensures#wrap err != io.EOF ==> cast(e, "filippo.io/age/armor.Error").err == err                                                 [C08]
+//@   modifies r.err
+
+//@ func (*armoredReader).Read$1() (line, err)
+//@   requires r.r != nil
+//@   ensures#err err != nil ==> len(line) == 0 && err != io.EOF                                                                      [C08 C13]
+//@   ensures#progress err == nil ==> len(r.r.$rem) < len(old(r.r.$rem))                                                             [C08 C14]
+//@   ensures#suffix issuffix(r.r.$rem, old(r.r.$rem)) && len(r.r.$rem) <= len(old(r.r.$rem))
+//@   ensures#len err == nil ==> len(line) <= len(old(r.r.$rem)) - len(r.r.$rem)
+//@   modifies r.r.$rem, r.r.$bufd, r.r.$under.$rem
+
+//@ func (*armoredReader).Read$2() (err)
+//@   requires r.r != nil
+//@   ensures#always err != nil                                                                                                      [C08 C13]
+//@   ensures#suffix issuffix(r.r.$rem, old(r.r.$rem)) && len(r.r.$rem) <= len(old(r.r.$rem))
+//@   ensures#bounded len(old(r.r.$rem)) - len(r.r.$rem) <= 1024                                                                      [C08 C12 C14]
+//@   ensures#eof err == io.EOF ==> len(r.r.$rem) == 0 && len(old(r.r.$rem)) < 1024 && allspace(old(r.r.$rem))                        [C08]
+//@   modifies r.r.$rem, r.r.$bufd, r.r.$under.$rem
+
+//@ func (*armoredReader).Read(r, p) (n, err)
+//@   requires arinv(r) && disjoint(p, r.buf)
+//@   loop 1 invariant arinv(r) && r.err == nil && len(r.unread) == 0 && 0 <= removedWhitespace && removedWhitespace <= 1024 && issuffix(r.r.$rem, old(r.r.$rem)) && old(r.err) == nil && len(old(r.unread)) == 0
+//@   loop 1 decreases len(r.r.$rem) + (r.started ? 0 : 1)
+//@   ensures#inv arinv(r)
+//@   ensures#n 0 <= n && n <= len(p)                                                                                               [C12 C14]
+//@   ensures#sticky (old(r.err) != nil && len(old(r.unread)) == 0) ==> n == 0 && err == old(r.err) && r.err == old(r.err) && r.r.$rem == old(r.r.$rem)   [C08 C13]
+//@   ensures#stored err != nil ==> r.err == err && n == 0                                                                           [C08 C13]
+//@   ensures#type (err != nil && err != io.EOF) ==> typeis(err, "*filippo.io/age/armor.Error")                                       [C08 C14]
+//@   ensures#clean err != nil ==> len(r.unread) == 0                                                                                [C08 C13]
+//@   ensures#nonempty (len(old(r.unread)) == 0 && old(r.err) == nil && err == nil) ==> len(r.unread) + n > 0                         [C08]
+//@   ensures#oneline (len(old(r.unread)) == 0 && old(r.err) == nil && err == nil && old(r.started)) ==> len(r.unread) + n <= 48       [C08 C12]
+//@   ensures#buffered len(old(r.unread)) > 0 ==> err == nil && n == min(len(p), len(old(r.unread))) && sub(bytes(p), 0, n) == sub(old(bytes(r.unread)), 0, n) && r.r.$rem == old(r.r.$rem)   [C08 C12]
+//@   call Decode#1 requires len(arg2) <= 64 && len(arg1) == 48 && arg0.$strictstd                                                    [C05 C08 C14]
+//@   modifies r.started, r.unread, r.buf, r.err, r.r.$rem, r.r.$bufd, r.r.$under.$rem, p[:]
+
